@@ -19,7 +19,7 @@ import (
 
 // MicroSpec selects one scenario.
 type MicroSpec struct {
-	State string   `json:"state"` // queued | inflight | expired | requeued | held2 | deferred | none
+	State string   `json:"state"` // queued | inflight | expired | requeued | held2 | deferred | defexp | none
 	Eph   bool     `json:"eph"`   // ephemeral topic and channel
 	MemQ  int64    `json:"memq"`
 	Ops   []string `json:"ops"`
@@ -165,6 +165,13 @@ var microOps = map[string]func(x *microCtx) string{
 		}
 		return errStr(err)
 	},
+	"req2d": func(x *microCtx) string {
+		_, err := x.prot.REQ(x.k2, [][]byte{b("REQ"), b(x.m1), b("2000")})
+		if err == nil {
+			x.reqOK[x.m1]++
+		}
+		return errStr(err)
+	},
 	"touch1": func(x *microCtx) string {
 		_, err := x.prot.TOUCH(x.k1, [][]byte{b("TOUCH"), b(x.m1)})
 		if err == nil {
@@ -304,6 +311,36 @@ var microOps = map[string]func(x *microCtx) string{
 	},
 }
 
+// gotThen: connection c2 answers message m1 the way a real client can - only after the
+// frame has reached it. The wait is a scheduling point (a blocking read of the connection).
+func gotThen(op string) func(x *microCtx) string {
+	return func(x *microCtx) string {
+		for {
+			f, ok := x.c2.Next()
+			if !ok {
+				return "eof"
+			}
+			if f.Type != frameTypeMessage {
+				continue
+			}
+			x.deliv[f.ID] = append(x.deliv[f.ID], f.Attempts)
+			x.delivTo[f.ID] = append(x.delivTo[f.ID], x.c2.Name)
+			x.delivBody[f.ID] = f.Body
+			x.delivAt[f.ID] = append(x.delivAt[f.ID], f.At)
+			if f.ID == x.m1 {
+				break
+			}
+		}
+		return microOps[op](x)
+	}
+}
+
+func init() {
+	for _, op := range []string{"req2d", "req2", "fin2", "touch2"} {
+		microOps["got2_"+op] = gotThen(op)
+	}
+}
+
 // MicroOpNames lists the available operations.
 func MicroOpNames() []string {
 	var s []string
@@ -373,7 +410,7 @@ func (x *microCtx) setup() string {
 	case "queued":
 		pub("m1")
 		pub("m2")
-	case "inflight", "expired", "requeued", "held2", "deferred":
+	case "inflight", "expired", "requeued", "held2", "deferred", "defexp":
 		x.c1.Cmd("RDY 1", nil)
 		w.Quiesce()
 		pub("m1")
@@ -403,7 +440,24 @@ func (x *microCtx) setup() string {
 			}
 		case "deferred":
 			x.c1.Cmd("REQ "+x.m1+" 2000", nil)
+			x.reqOK[x.m1]++
 			w.Quiesce()
+		case "defexp":
+			// m1 was requeued with a delay that has just elapsed: the next deferred scan
+			// moves it back to the queue. c1 takes no more messages meanwhile.
+			x.c1.Cmd("RDY 0", nil)
+			w.Quiesce()
+			x.c1.Cmd("REQ "+x.m1+" 400", nil)
+			x.reqOK[x.m1]++
+			w.Quiesce()
+			// c2 is ready for two: it takes m2 now and will be handed m1 as soon as the
+			// deferred scan has put it back (inside the window)
+			// (its frame leaves c2's output buffer with the 250 ms flush timer)
+			x.c2.Cmd("RDY 2", nil)
+			w.Sleep(450 * time.Millisecond)
+			if got := take1(x.c2); got == "" {
+				return "setup: m2 not delivered to c2"
+			}
 		}
 	default:
 		return "unknown state " + spec.State
@@ -635,6 +689,17 @@ func (x *microCtx) oracle() {
 		}
 		if len(x.deliv) < want {
 			x.bad("C01 C02 C08 message lost", "expected %d distinct messages to be delivered over the execution, saw %d: %s", want, len(x.deliv), x.delivSummary())
+		}
+		// ... individually: a message that was ever delivered and whose FIN was not accepted
+		// in the window must come round again in the drain (whoever holds it never answers, so
+		// it times out; the drain FINs everything it is handed)
+		for id, as := range x.deliv {
+			if x.finOK[id] || hasOp("empty_topic") {
+				continue
+			}
+			if len(as)-x.postWin[id] == 0 {
+				x.bad("C01 C02 C08 message lost", "message %s (%s) was delivered %v to %v, its FIN was never accepted, and it was not delivered again during the drain (timeouts and delays all elapsed)", id, x.delivBody[id], as, x.delivTo[id])
+			}
 		}
 		if c != nil {
 			d := DumpChannel(c)
